@@ -16,25 +16,38 @@ RULE = ("every boolean mask of every shape with H*W <= N (see exhaustive_subspac
         "blurring_mask_2d_from) and, on a smaller exhaustive set, through Mask2D.derive_indexes / derive_mask / derive_grid "
         "and Grid2D.blurring_grid_from; plus random masks up to 9x9 (iid, blobs with holes, diagonal walks / thin bridges, "
         "mostly-unmasked with pin holes, with and without a masked padding ring) with kernels in {1,3,5,7}^2 and a few "
-        "even / non-positive kernels. Non-trivial = the mask has at least one unmasked pixel; distinct = distinct JSON input.")
+        "even / non-positive kernels.  HISTORIES (op hist, Model/C10.v Part 5): programs over a pool of Mask2D objects -- construct "
+        "(array / list / int array / invert=True / with_new_array / resized_from), read some or all views through fresh or HELD "
+        "derive_indexes / derive_mask / derive_grid objects, edit in place (obj[y,x]=v, obj.mask[y,x]=v, obj.array[y,x]=v, obj[y][x]=v, "
+        "numpy scalars, int values, negative indices, obj[boolean key]=v), copy (copy(), copy.copy, deepcopy, Mask2D(mask=obj)), derive a "
+        "Mask2D (derive_mask.edge/border/edge_buffed/blurring_from, derive_grid.edge/border .mask, blurring_grid_from(...).mask, invert()), "
+        "edit the derived object, and read everything again (eleven views, blurring mask and grid, util functions on a twin ndarray that is "
+        "re-used and edited in place); every read must equal the model on the CURRENT contents of that object and show those contents. "
+        "Families: one view read -> edit -> re-read all (every view x fresh/held x edit route); copy then edit copy / original; derived objects; "
+        "two edits restoring the number of unmasked pixels; all small masks x every cell flipped; random programs. "
+        "Non-trivial = the mask has at least one unmasked pixel; distinct = distinct JSON input.")
 EXHAUSTIVE = {
     "quick": "util edge/border/buffed: all masks of all shapes with H*W <= 10 and all 3x4 / 4x3 masks (15 498 masks, "
              "outer-ring pixels included); public derive_* views and check_if_edge_pixel: all masks with H*W <= 9; blurring "
              "(util and public alternating): all masks with H*W <= 9 x kernels (1,1), (3,3) and every other one of (1,3), (3,1), "
-             "and all 3x4 / 4x3 masks x kernel (3,3)",
+             "and all 3x4 / 4x3 masks x kernel (3,3); histories: all masks with H*W <= 4 x every cell flipped between two full reads",
     "thorough": "util on all masks of all shapes with H*W <= 12 (35 978 masks) and on all 4x4, 3x5 and 5x3 masks; public views on all "
                 "masks with H*W <= 12 and on every other 4x4 / 3x5 / 5x3 mask; blurring on all masks with H*W <= 9 x kernels {1,3,5}^2, on all "
                 "masks with 10 <= H*W <= 12 x kernel (3,3) and one more kernel of {1,3,5}^2 in rotation, and on all 5x5 masks with a masked "
-                "outer ring x kernels {1,3,5}^2",
+                "outer ring x kernels {1,3,5}^2; histories: all masks with H*W <= 6 and all 3x3 masks x every cell flipped between two full reads",
 }
 TRUSTED = ["correspondence harness harness/c10.py (mask/array printing; grid coordinates are doubled and must be integers, "
            "asserted exactly with fractions.Fraction)",
            "numpy semantics modelled in Model/C10.v Part 1: a[y,x] reads/writes with negative-index wrap, np.full, np.sum of a "
-           "boolean slice, fancy indexing a[idx] and mask[ys,xs] = False"]
+           "boolean slice, fancy indexing a[idx] and mask[ys,xs] = False",
+           "histories: the harness's interpreter of history programs (run_hist): it applies each edit to the Mask2D and to the twin ndarray, "
+           "and prints as the mask field of every read what np.array(obj) shows at that moment"]
 ASSUMPTIONS = ["native_index_for_slim_index_2d_from and grid_2d_slim_via_mask_from are modelled as append / map over the "
                "row-major scan (their preallocate-and-write form belongs to C01 / C02); the correspondence run exercises them",
                "pixel scales and origins of the grid views are small integers so that doubled coordinates are exact integers",
-               "Mask2D(...) / Grid2D(...) constructors keep the arrays they are given (checked by the KViews / KBlur cases)"]
+               "Mask2D(...) / Grid2D(...) constructors keep the arrays they are given (checked by the KViews / KBlur cases)",
+               "object layer (Model/C10.v Part 5): a Mask2D owns its array, obj[y,x]=v writes it in place, copies own a copy, reads change "
+               "nothing -- modelled as a list of contents and checked by every history (contents shown by np.array(obj) at every read)"]
 
 _tally = {}
 def _t(k): _tally[k] = _tally.get(k, 0) + 1
@@ -205,6 +218,16 @@ def _read(rng, oref, op="views", held=None):
 
 def _hist(g, steps): return {"op": "hist", "g": g, "steps": steps}
 
+def _reread(rng, o, held=None, k=None):
+    """everything is read again from object o: the eleven views, the blurring mask and grid (kernel k, default the (3,3)
+    of the partial reads), the util functions on the twin array"""
+    k = k or [3, 3]
+    out = [_read(rng, o, "views", held), ["read", o, "blur", False, None, {"k": k}], ["read", o, "blurgrid", False, None, {"k": k}],
+           ["read", o, "util", False, None, {"buffer": 1}], ["read", o, "blurutil", False, None, {"k": k}]]
+    if rng.random() < 0.3: out.append(_read(rng, o, "checkedge"))
+    rng.shuffle(out)
+    return out
+
 def hist_inputs(tier, rng):
     big = tier == "thorough"
     # ---- A: read ONE view (fresh or held derive_* objects), edit the same Mask2D in place, read everything again
@@ -213,7 +236,7 @@ def hist_inputs(tier, rng):
             for held in (False, True):
                 for route in (EDIT_ROUTES[1:] if big else [EDIT_ROUTES[1 + (si + held + rep) % 7], "item"]):
                     yield _hist(rng.choice(GEOMS), [["new", rng.choice(NEW_ROUTES[:5]), _rows(rng)], ["touch", 0, [sel], held],
-                                                    _edit(rng, 0, route, "flip"), _read(rng, 0, "views", held), _read(rng, 0, "views", not held)])
+                                                    _edit(rng, 0, route, "flip")] + _reread(rng, 0, held) + [_read(rng, 0, "views", not held)])
     # ---- B / C: read one view, copy, edit the copy (B) or the original (C), read both
     for rep in range(3 if big else 1):
         for si, sel in enumerate(SEL_NAMES):
@@ -222,18 +245,32 @@ def hist_inputs(tier, rng):
                 tgt = (si + ci) % 2                      # 1 = edit the copy, 0 = edit the original
                 held = (si + ci) % 3 == 0
                 yield _hist(rng.choice(GEOMS), [["new", "ctor", _rows(rng)], ["touch", 0, [sel], held], ["copy", croute, 0],
-                                                _edit(rng, tgt, None, "flip"), _read(rng, 1, "views", False), _read(rng, 0, "views", held),
-                                                _read(rng, tgt, rng.choice(["util", "blur", "blurgrid", "checkedge"]))])
+                                                _edit(rng, tgt, None, "flip")] + _reread(rng, 1, False) + _reread(rng, 0, held))
     # ---- D: a DERIVED Mask2D is itself observed, edited and observed again, and so is its source
     for rep in range(3 if big else 1):
         for di_, (dname, droute) in enumerate(DERIVES):
             for si, sel in enumerate(SEL_NAMES):
-                if not big and (si + di_ + rep) % 3: continue
+                if not big and (si + di_ + rep) % 4: continue
                 k = rng.choice(HKS[:5])
                 yield _hist(rng.choice(GEOMS), [["new", "ctor", pad(rand_mask(rng, rng.randint(1, 4), rng.randint(1, 4)), k[0] // 2 + rng.randint(0, 1), k[1] // 2 + rng.randint(0, 1))],
-                                                _read(rng, 0, "views"), ["derive", dname, droute, 0, k[0], k[1]], ["touch", 1, [sel], si % 2 == 0],
-                                                _edit(rng, 1, None, "flip"), _read(rng, 1, "views", si % 2 == 0), _read(rng, 0, "views"),
-                                                _edit(rng, 0, None, "flip"), _read(rng, 0, "views"), _read(rng, 1, "views")])
+                                                _read(rng, 0, "views"), ["read", 0, "blur", False, None, {"k": k}],
+                                                ["derive", dname, droute, 0, k[0], k[1]], _read(rng, 1, "views"), ["touch", 1, [sel], si % 2 == 0],
+                                                _edit(rng, 1, None, "flip")] + _reread(rng, 1, si % 2 == 0, k) + [_read(rng, 0, "views"),
+                                                _edit(rng, 0, None, "flip")] + _reread(rng, 0, None, k) + [_read(rng, 1, "views")])
+    # ---- G: two edits that restore the number of unmasked pixels (and the shape): one pixel masked, another unmasked
+    for rep in range(4 if big else 1):
+        for si, sel in enumerate(SEL_NAMES):
+            for held in (False, True):
+                rows = _rows(rng)
+                h, w = len(rows), len(rows[0])
+                ones = [[y, x] for y in range(h) for x in range(w) if rows[y][x] == "1"]
+                zeros = [[y, x] for y in range(h) for x in range(w) if rows[y][x] == "0"]
+                if not ones or not zeros: rows = ["110", "011", "111"]; ones, zeros = [[0, 0]], [[0, 2]]
+                a, b = rng.choice(ones), rng.choice(zeros)
+                if rng.random() < 0.5: a, b = b, a
+                yield _hist(rng.choice(GEOMS), [["new", "ctor", rows], ["touch", 0, [sel], held], _read(rng, 0, "views", held),
+                                                ["edit", rng.choice(EDIT_ROUTES[:7]), 0, [a], "flip", 0], ["edit", rng.choice(EDIT_ROUTES[:7]), 0, [b], "flip", 0]]
+                            + _reread(rng, 0, held))
     # ---- E: every mask of a small shape, every cell flipped after a full read
     shapes = shapes_upto(6) + [(3, 3)] if big else shapes_upto(4)
     n = 0
@@ -249,22 +286,27 @@ def hist_inputs(tier, rng):
             if n % 5: continue
             yield _hist(GEOMS[n % 4], [["new", "ctor", ms], ["touch", 0, [SEL_NAMES[n % 14], SEL_NAMES[(n // 14) % 14]], n % 2 == 0],
                                        ["edit", EDIT_ROUTES[n % 8], 0, [[n % 3, (n // 3) % 3]], "flip", 0], _read(rng, 0, "views", n % 2 == 0)])
-    # ---- F: random programs
-    for j in range(2500 if big else 260):
+    # ---- F: random programs (one preferred kernel per history, so that the same call is repeated across edits)
+    for j in range(2500 if big else 150):
         steps = [["new", rng.choice(NEW_ROUTES[:5]), _rows(rng, big)]]
+        hk = rng.choice(HKS)
+        def kk(): return hk if rng.random() < 0.75 else rng.choice(HKS)
         for _ in range(rng.randint(4, 14)):
             r = rng.random(); o = rng.randrange(8)
             if r < 0.30: steps.append(_edit(rng, o))
-            elif r < 0.50: steps.append(_read(rng, o, "views"))
-            elif r < 0.62: steps.append(_read(rng, o, rng.choice(["util", "checkedge", "blurutil", "blur", "blurgrid", "contents"])))
+            elif r < 0.48: steps.append(_read(rng, o, "views"))
+            elif r < 0.62:
+                rd = _read(rng, o, rng.choice(["util", "checkedge", "blurutil", "blur", "blur", "blurgrid", "blurgrid", "contents"]))
+                if "k" in rd[5]: rd[5] = {"k": kk()}
+                steps.append(rd)
             elif r < 0.76: steps.append(["touch", o, rng.sample(SEL_NAMES, rng.randint(1, 4)), rng.random() < 0.4])
             elif r < 0.84: steps.append(["copy", rng.choice(COPY_ROUTES), o])
             elif r < 0.93:
-                d = rng.choice(DERIVES); k = rng.choice(HKS)
+                d = rng.choice(DERIVES); k = kk()
                 steps.append(["derive", d[0], d[1], o, k[0], k[1]])
             elif r < 0.97: steps.append(["new", rng.choice(NEW_ROUTES), _rows(rng, big)])
             else: steps.append(["resized", o, rng.randint(-1, 2), rng.randint(-1, 2)])
-        steps.append(_read(rng, rng.randrange(8), "views"))
+        steps += _reread(rng, rng.randrange(8), None, hk)
         yield _hist(rng.choice(GEOMS), steps)
 
 # ----------------------------------------------------------------------------- implementation calls
@@ -276,12 +318,21 @@ def _classify(M):
 
 VIEW_FIELDS = ["edge_slim", "edge_native", "border_slim", "border_native", "mask_edge", "mask_border", "mask_buffed",
                "grid_edge", "grid_edge_mask", "grid_border", "grid_border_mask"]
-# selector numbers of HTouch: the eleven fields of a full read, then three more entry points
-SEL_NAMES = VIEW_FIELDS + ["blur33", "blurgrid33", "native_for_slim"]
+# selector numbers of HTouch: the eleven fields of a full read, three more entry points, the util functions (on the twin array)
+SEL_NAMES = VIEW_FIELDS + ["blur33", "blurgrid33", "native_for_slim", "u_total", "u_edge", "u_border", "u_buffed", "u_blur33"]
 
-def _view(aa, m, name, handles=None):
-    """one view of the Mask2D `m`, through fresh derive_* objects or through the held `handles` = (di, dm, dg)"""
+def _view(aa, m, name, handles=None, raw=None):
+    """one view of the Mask2D `m`, through fresh derive_* objects or through the held `handles` = (di, dm, dg);
+    the u_* selectors call the util functions on the ndarray `raw`"""
     di, dm, dg = handles if handles is not None else (None, None, None)
+    if name.startswith("u_"):
+        from autoarray.mask import mask_2d_util as u
+        if name == "u_total": return int(u.total_edge_pixels_from(mask_2d=raw))
+        if name == "u_edge": return ints(u.edge_1d_indexes_from(mask_2d=raw))
+        if name == "u_border": return ints(u.border_slim_indexes_from(mask_2d=raw))
+        if name == "u_buffed": return mask_out(u.buffed_mask_2d_from(mask_2d=raw, buffer=1))
+        r = call_res(u.blurring_mask_2d_from, mask_2d=raw, kernel_shape_native=(3, 3))
+        return r if r[0] == "raise" else ("ok", mask_out(r[1]))
     if name in ("edge_slim", "edge_native", "border_slim", "border_native", "native_for_slim"):
         di = di if di is not None else m.derive_indexes
         if name == "edge_slim": return ints(di.edge_slim)
@@ -500,9 +551,10 @@ def run_hist(aa, inp):
             _, oref, names, held = st
             o = oref % len(objs); ob = objs[o]
             for name in names:
-                r = call_res(lambda: _view(aa, ob.m, name, handles(ob, held)))
+                r = call_res(lambda: _view(aa, ob.m, name, handles(ob, held), ob.raw))
                 if r[0] == "raise": problems.append(f"reading {name} raised {r[1]}")
                 else: ob.seen[name] = r[1]
+            if mask_out(ob.raw) != cur(ob): problems.append("a partial read changed the object or the array given to a util function")
             steps.append(f"HTouch {o}%nat {czl([SEL_NAMES.index(n) for n in names])}"); log.append(["touch", o, names, held])
         elif kind == "read":
             _, oref, op, held, order, p = st
